@@ -25,13 +25,28 @@ def run_task(task: dict) -> dict:
     t0 = time.time()
     req = Request.make(task["assignment"], task["formats"])
     res = {"request": req.asdict(), "dimvec": task["dimvec"], "N": task["N"], "status": "ok",
-           "stats": {}, "mode": task["mode"]}
+           "stats": {}, "mode": task["mode"], "program": task.get("program"),
+           "symbolic_classes": task.get("symbolic_classes")}
     try:
         comp = compile_request(req, kinds=KINDS3, optimise=True)
         if comp.refusal:
             res["status"] = "refused"
             res["refusal"] = comp.refusal
         else:
+            if task["mode"] == "c07":
+                from tensora.ir import peephole
+
+                comp0 = compile_request(req, kinds=KINDS3, optimise=False)
+                task = dict(task)
+                task["_comp0"] = comp0
+                again = peephole(comp0.module)
+                if again != comp.module:
+                    res["status"] = "violation"
+                    res["violation"] = {"kind": "pipeline", "label": ["the module the pipeline returns is not peephole(unoptimised module)"],
+                                        "detail": None}
+                    res["wall_s"] = round(time.time() - t0, 3)
+                    return res
+                res["changed_by_peephole"] = comp0.module != comp.module
             res.update(_explore(comp, task))
     except HarnessError as e:
         res["status"] = "harness-error"
@@ -82,10 +97,88 @@ def revalue_inputs(m: Machine, setup: Setup, tag: str):
     return new_infos
 
 
+def eligible_classes(comp) -> list[str]:
+    """Index classes meeting C16's hypothesis: every operand and the output store the index only in
+    compressed levels (or lack it) and every additive term mentions it."""
+    from .explore import tensor_index_lists
+
+    cls = index_classes(comp.assignment)
+    lists = tensor_index_lists(comp.assignment)
+    out = []
+    for c in sorted(set(cls.values())):
+        members = {i for i, k in cls.items() if k == c}
+        ok = True
+        used = False
+        for name, fmt in comp.formats.items():
+            idxs = lists[name]
+            for l, mode in enumerate(fmt.modes):
+                if idxs[fmt.ordering[l]] in members:
+                    used = True
+                    if mode != Mode.compressed:
+                        ok = False
+        # a tensor used with several index lists: check every occurrence
+        for name, occs in comp.assignment.expression.variables().items():
+            fmt = comp.formats[name]
+            for occ in occs:
+                for l, mode in enumerate(fmt.modes):
+                    if occ.indexes[fmt.ordering[l]] in members and mode != Mode.compressed:
+                        ok = False
+        if not ok or not used:
+            continue
+        for coef, ts in spec.monomials(comp.assignment.expression):
+            if not any(i in members for t in ts for i in t.indexes):
+                ok = False
+        if ok:
+            out.append(c)
+    return out
+
+
+def _map_blocks(log0, log1):
+    """k-th allocation of the optimised run corresponds to the k-th of the original."""
+    if [k for k, _, _ in log0] != [k for k, _, _ in log1]:
+        return None
+    mp = {}
+    for (k0, n0, o0), (k1, n1, o1) in zip(log0, log1):
+        mp[n1] = n0
+    return mp
+
+
+def _access_containment(m, trace0, trace1, mp):
+    """Every access of the optimised program was also performed by the original."""
+    by = {}
+    for kind, b, off in trace0:
+        by.setdefault((kind, b), []).append(off)
+    todo = []
+    for kind, b, off in trace1:
+        b0 = mp.get(b, b)
+        cands = by.get((kind, b0))
+        if not cands:
+            raise Violation("extra-access", ("optimised program accesses a block the original did not", kind,
+                                             m.heap[b].name), kassert._model(m))
+        hit = False
+        for c in cands:
+            if isinstance(off, int) and isinstance(c, int):
+                if off == c:
+                    hit = True
+                    break
+            elif not isinstance(off, int) and not isinstance(c, int) and off.eq(c):
+                hit = True
+                break
+        if not hit:
+            todo.append((sym.bor(*[icmp("==", off, c) for c in cands]),
+                         ("optimised program performs an access the original did not", kind, m.heap[b].name)))
+    return kassert.discharge(m, todo, "extra-access")
+
+
 def _explore(comp, task):
     mode = task["mode"]
     cls = index_classes(comp.assignment)
     dv = dict(task["dimvec"])
+    sym_dims = {}
+    if mode == "c16":
+        for c in task["symbolic_classes"]:
+            sym_dims[c] = z3.Int(f"dim_{c}")
+            dv[c] = sym_dims[c]
     setup = Setup(comp, dv, task["N"])
     fns = comp.functions
     names = list(comp.formats.keys())
@@ -122,7 +215,66 @@ def _explore(comp, task):
         setup.apply(m)
         ex = IRExec(m, sent)
         try:
-            if mode == "c05":
+            if mode == "c07":
+                comp0 = task["_comp0"]
+                ex0 = IRExec(m, sent)
+                second_output(m, comp, out2)
+                programs = [["evaluate"]] if task.get("program") == "evaluate" else [["assemble"], ["compute"]]
+                mp_total = {}
+                for (kind,) in programs:
+                    n_alloc = len(m.alloc_log)
+                    m.trace_accesses = []
+                    try:
+                        ret0 = ex0.run(comp0.functions[kind], args1)
+                        m.flush_obligations()
+                    except Violation:
+                        # the original does not run safely on this path: outside the claim (C05 reports it)
+                        flags["original_unsafe_paths"] = flags.get("original_unsafe_paths", 0) + 1
+                        m.trace_accesses = None
+                        return
+                    trace0 = m.trace_accesses
+                    log0 = m.alloc_log[n_alloc:]
+                    n_alloc = len(m.alloc_log)
+                    m.trace_accesses = []
+                    ret1 = ex.run(fns[kind], args2)
+                    m.flush_obligations()
+                    trace1 = m.trace_accesses
+                    m.trace_accesses = None
+                    log1 = m.alloc_log[n_alloc:]
+                    if not (isinstance(ret0, int) and isinstance(ret1, int) and ret0 == ret1):
+                        if simp_bool(icmp("==", ret0, ret1)) is not True:
+                            raise Violation("mismatch", ("return values differ", kind), kassert._model(m))
+                    mp = _map_blocks(log0, log1)
+                    if mp is None:
+                        raise Violation("mismatch", ("allocation sequences differ", kind), kassert._model(m))
+                    mp_total.update(mp)
+                    flags["access_checks"] = flags.get("access_checks", 0) + _access_containment(m, trace0, trace1, mp_total) + len(trace1)
+                    counts1 = kassert.output_shape(m, out1, False, [])
+                    counts2 = kassert.output_shape(m, out2, False, [])
+                    if counts1 != counts2:
+                        raise Violation("mismatch", ("level sizes differ after optimisation", kind, counts1, counts2),
+                                        kassert._model(m))
+                    if kind != "assemble":
+                        flags["compared_cells"] += _compare_outputs(m, out1, out2, counts1)
+                    else:
+                        flags["compared_cells"] += _compare_outputs(m, out1, out2, counts1, with_vals=False)
+                    if counts1 and counts1[-1] > 0:
+                        flags["nonempty"] = True
+            elif mode == "c16":
+                run_kernel(m, ex, "evaluate", args1)
+                for c, D in sym_dims.items():
+                    D2 = z3.Int(f"dim2_{c}")
+                    pc2 = [z3.substitute(x, (D, D2)) for x in m.pc]
+                    r = m.check(D2 > D, D2 <= sym.INT_MAX, z3.Not(z3.And(*pc2)))
+                    flags["monotone_checks"] = flags.get("monotone_checks", 0) + 1
+                    if r != z3.unsat:
+                        model = m.solver.model()
+                        raise Violation("work-depends-on-dimension",
+                                        ("path taken depends on the size of a sparse-only dimension", c),
+                                        model, detail={"class": c, "D": explore.mval(model, D),
+                                                       "D2": explore.mval(model, D2)})
+                flags["nonempty"] = True
+            elif mode == "c05":
                 which = task.get("program", "evaluate")
                 if which == "evaluate":
                     run_kernel(m, ex, "evaluate", args1)
@@ -248,7 +400,7 @@ def _same_structure(m, out, snapshot, index_cells):
         pass
 
 
-def _compare_outputs(m, a, b, counts):
+def _compare_outputs(m, a, b, counts, with_vals=True):
     """Raw pos/crd/vals of two outputs equal cell by cell (for all inputs of this path)."""
     ta, tb = m.tensors[a], m.tensors[b]
     conds = []
@@ -264,7 +416,8 @@ def _compare_outputs(m, a, b, counts):
         for q in range(counts[l]):
             conds.append((icmp("==", m.read_cell(ca, q), m.read_cell(cb, q)), ("crd differs", l, q)))
         n_prev = counts[l]
-    va, vb = m.heap[ta.vals.block], m.heap[tb.vals.block]
-    for q in range(n_prev):
-        conds.append((m.falg.eq(m.read_cell(va, q), m.read_cell(vb, q)), ("vals differ", q)))
+    if with_vals:
+        va, vb = m.heap[ta.vals.block], m.heap[tb.vals.block]
+        for q in range(n_prev):
+            conds.append((m.falg.eq(m.read_cell(va, q), m.read_cell(vb, q)), ("vals differ", q)))
     return kassert.discharge(m, conds, "mismatch")
